@@ -1,6 +1,7 @@
 package main
 
 import (
+	"encoding/json"
 	"math/big"
 	"strconv"
 	"strings"
@@ -454,6 +455,19 @@ func c14(r *mon.Run) {
 						return m
 					}()},
 					cs{r1 + " == " + l1 + " && " + r2 + " == " + l2, nil, true})
+			}
+			// a raw string and a JSON literal with the same text between their delimiters denote different things
+			// (the text itself / the value it encodes), in either order, in one expression
+			if gen.RawSpellable(q1) && !strings.Contains(q1, "`") {
+				cases = append(cases, cs{"[" + gen.RawLexeme(q1) + ", " + l1 + "]", map[string]interface{}{}, []interface{}{q1, s1}},
+					cs{"[" + l1 + ", " + gen.RawLexeme(q1) + ", " + l1 + "]", map[string]interface{}{}, []interface{}{s1, q1, s1}})
+			}
+			if json.Valid([]byte(s1)) && gen.RawSpellable(s1) && !strings.Contains(s1, "`") && strings.TrimSpace(s1) != "" {
+				var v interface{}
+				if json.Unmarshal([]byte(s1), &v) == nil {
+					cases = append(cases, cs{"[" + gen.RawLexeme(s1) + ", `" + s1 + "`]", map[string]interface{}{}, []interface{}{s1, v}},
+						cs{"[`" + s1 + "`, " + gen.RawLexeme(s1) + "] | [@[0], @[1]]", map[string]interface{}{}, []interface{}{v, s1}})
+				}
 			}
 			for _, c := range cases {
 				t.Eval()
